@@ -352,6 +352,21 @@ pub fn scratch_root() -> String {
     format!("{}/ommx-dst-{}", base, std::process::id())
 }
 
+/// Simulated disks of harness processes that no longer exist (killed, or ended by an abort outside a
+/// simulation thread) are removed; directories of live processes are left alone.
+fn sweep_stale_scratch(own_root: &str) {
+    let Some(parent) = std::path::Path::new(own_root).parent() else { return };
+    let Ok(rd) = std::fs::read_dir(parent) else { return };
+    for e in rd.flatten() {
+        let name = e.file_name().to_string_lossy().into_owned();
+        if let Some(pid) = name.strip_prefix("ommx-dst-").and_then(|p| p.parse::<u32>().ok()) {
+            if pid != std::process::id() && !std::path::Path::new(&format!("/proc/{pid}")).exists() {
+                let _ = std::fs::remove_dir_all(e.path());
+            }
+        }
+    }
+}
+
 pub fn verif_dir() -> std::path::PathBuf {
     // the binary lives in /verif/.build/release/check
     let exe = std::env::current_exe().unwrap_or_default();
@@ -428,6 +443,7 @@ pub fn run_check<P: Prop>(prop: &P, opt: &Options) -> i32 {
     prop.prepare();
     println!("VERIF_SEED={} property={} tier={} harness=\"{}\"", opt.seed, id, opt.tier.name(), HARNESS_VERSION);
     let root = scratch_root();
+    sweep_stale_scratch(&root);
     let _ = std::fs::create_dir_all(&root);
     let plan = prop.enum_plan(opt.tier, opt.seed);
     let mut prefix: Vec<u64> = Vec::with_capacity(plan.len() + 1);
